@@ -54,7 +54,7 @@ fn main() {
         "cbor-make-credential-request" => guarded(move || cbor::mc_request(&hex(&arg))),
         "lock-wrappers" => guarded(move || ceremony::lock_wrappers(&arg)),
         "shipped-store" => guarded(move || ceremony::shipped_store(&arg)),
-        "client-ceremonies" => guarded(move || client::sweep()),
+        "client-ceremonies" => guarded(move || client::sweep(&arg)),
         "client-prf" => guarded(move || { let _ = &arg; client::prf_inputs() }),
         "ceremony" => guarded(move || ceremony::run(&arg)),
         "c18-trait" => ceremony::c18(&arg),
@@ -63,6 +63,7 @@ fn main() {
         "origin-text" => guarded(move || rpid::origin_text(&arg)),
         "ctap-map" => guarded(move || ctapmap::run(&arg)),
         "psl-enumerate" => guarded(move || pslenum::run(&arg)),
+        "psl-empty-labels" => guarded(move || pslenum::empty_labels(&arg)),
         "psl-rules" => guarded(move || pslenum::emit_rules(&arg)),
         "hid-packets" => guarded(move || hid::packets_no_panic(&arg)),
         "hid-send-fields" => guarded(move || hid::send_fields(&arg)),
